@@ -5,6 +5,8 @@ import gen as G
 import shapes as S
 
 PID = 'C01'
+FLOAT_KINDS = {'single', 'list', 'ders0', 'grid'}      # float-mode companion (core.float_companion)
+FLOAT_TOL = 1e-9
 STATS = G.STATS
 PARTIAL = [
     "point = Cox-de Boor (tensor) sum is assembled through the span search for every parameter of the closed domain (cdb on the half-open domain; at the right end the recursion of the last span, cdbSpan, = left-limit convention), rational quotient included; the statement is about findSpanLinear - evaluation with find_span_binsearch selected is covered through C03/C17 span_search_choice under its tolerance hypothesis",
